@@ -14,6 +14,13 @@ WTS = ["u8", "u16", "u32", "u64", "u128", "usize"]
 HUGES = [2 ** 63, 2 ** 64 - 1, 2 ** 62 + 1]
 
 
+
+def via_helper(r, op):
+    """a third of the atomic get / set calls go through the AtomicHelper blanket trait (another entry point)"""
+    if op["op"] in ("a_get", "a_set") and r.random() < 0.34:
+        op["via"] = "helper"
+    return op
+
 def bits_of(x):
     return [b for b in range(x.bit_length()) if (x >> b) & 1]
 
@@ -248,9 +255,10 @@ class Tr:
                 self.form = "vec" if self.ops[-1]["mode"] == "full" else "ro"
         else:  # atomic forms
             if k < 0.40:
-                self.add({"op": r.choice(["a_set", "a_set", "a_set_unchecked"]), "i": idx(r, n, W, w), "v": rval(r, w, W)})
+                self.add(via_helper(r, {"op": r.choice(["a_set", "a_set", "a_set_unchecked"]), "i": idx(r, n, W, w),
+                                        "v": rval(r, w, W)}))
             elif k < 0.60:
-                self.add({"op": r.choice(["a_get", "a_get_unchecked"]), "i": idx(r, n, W, w)})
+                self.add(via_helper(r, {"op": r.choice(["a_get", "a_get_unchecked"]), "i": idx(r, n, W, w)}))
             elif k < 0.70:
                 self.add({"op": r.choice(["a_reset", "a_par_reset", "a_reset_dep"])})
             elif k < 0.90:
@@ -659,8 +667,8 @@ def ood_episodes(seed, count):
                 else: t.add({"op": "eq_self", "mode": r.choice(["longer", "shorter", "width"]), "at": 0})
             elif t.form in ("atomic", "atomic_boxed"):
                 j = r.randrange(4)
-                if j == 0: t.add({"op": "a_get", "i": i})
-                elif j == 1: t.add({"op": "a_set", "i": r.choice(far + [0]), "v": v})
+                if j == 0: t.add(via_helper(r, {"op": "a_get", "i": i}))
+                elif j == 1: t.add(via_helper(r, {"op": "a_set", "i": r.choice(far + [0]), "v": v}))
                 elif j == 2: t.add({"op": r.choice(["a_reset", "a_all", "a_len"])})
                 else: t.add({"op": "into", "to": "vec"}); t.form = "vec"
             else:
